@@ -5,7 +5,7 @@ S=/root/scratch/seedchk-$ID-$PROP
 git -C /repo worktree remove --force "$S" >/dev/null 2>&1; rm -rf "$S"
 git -C /repo worktree add -q --detach "$S" HEAD || exit 2
 git -C "$S" apply /verif/seeded/$ID/patch.diff || { echo "$ID apply-failed"; exit 2; }
-( cd /verif && VERIF_REPO="$S" timeout 3000 ./run.sh "$PROP" "$TIER" ) > /root/scratch/seedchk-$ID-$PROP.out 2>&1; c=$?
+( cd /verif && VERIF_BUDGET_S=${VERIF_BUDGET_S:-900} VERIF_REPO="$S" timeout 3000 ./run.sh "$PROP" "$TIER" ) > /root/scratch/seedchk-$ID-$PROP.out 2>&1; c=$?
 git -C /repo worktree remove --force "$S" >/dev/null 2>&1; rm -rf /verif/.work/alt-$(echo "$S" | md5sum | cut -c1-10)
 det=MISSED; [ $c -eq 1 ] && det=DETECTED; [ $c -ge 2 ] && det="HARNESS-ERROR-$c"
 echo "$ID vs $PROP: $det $(grep -m2 'signature:' /root/scratch/seedchk-$ID-$PROP.out | sed 's/.*signature: //' | cut -c1-100 | tr '\n' ' ')"
